@@ -3,14 +3,16 @@
 package handler
 
 // C18 correspondence harness: Authorize (JWT), LimitContentSecurityHandler, LimitCryptionHandler and
-// httpx.ParseHeader / base64 driven through httptest, one request per trace line.
+// httpx.ParseHeader / base64 driven through httptest, one request per trace line. Requests are framed the ways a client
+// can frame them (Content-Length, chunked, no body) and either handed to the middleware as the server-side
+// *http.Request or written byte by byte to a real net/http server on the loopback interface (`via=wire`).
 // Generation (c18Gen*) is separate from execution (c18Start): the executor is driven by the op text only.
 // Everything the harness states about a request ("facts": signature valid under a secret, RSA plaintext,
 // raw AES block decryptions, url.Parse result) is computed with the Go standard library, not with go-zero code.
 
 import (
+	"bufio"
 	"bytes"
-	"context"
 	"crypto/aes"
 	"crypto/hmac"
 	crand "crypto/rand"
@@ -25,9 +27,12 @@ import (
 	"fmt"
 	"hash"
 	"io"
+	"log"
 	"math"
+	"net"
 	"net/http"
 	"net/http/httptest"
+	"net/textproto"
 	"net/url"
 	"os"
 	"path/filepath"
@@ -368,6 +373,173 @@ func c18TokenFacts(auth, secret, prev string) c18Facts {
 	}
 }
 
+// ---------------------------------------------------------------- request framing and transport
+
+// c18GarbageSecret is a secret field that is base64 but no RSA ciphertext (used by the duplicate-field/-header variants).
+const c18GarbageSecret = "Z2FyYmFnZS1zZWNyZXQ="
+
+const c18SecretMark = "@SECRET@"
+
+type c18Hdr struct{ name, value string }
+
+// c18Req is one request as a client frames it.
+type c18Req struct {
+	method, target string // target = path[?query] exactly as written on the request line
+	hdrs           []c18Hdr
+	body           []byte
+	fr             string // len | chunked | nobody | nobody-unknown
+	clOverride     string // direct transport only: r.ContentLength forced to this value ("" = not forced)
+}
+
+// c18Got is what net/http handed to the middleware (taken in front of it) and what the wrapped handler saw.
+type c18Got struct {
+	reached  bool
+	path     string
+	query    string
+	cl       int64
+	csValues []string // values of X-Content-Security in the order net/http stored them
+	auValues []string // values of Authorization
+	ran      int
+	seen     []byte
+	panicked bool
+}
+
+// c18Front wraps the middleware under test: records the request as the middleware gets it, captures a panic.
+func c18Front(got *c18Got, h http.Handler) http.Handler {
+	return http.HandlerFunc(func(w http.ResponseWriter, r *http.Request) {
+		got.reached = true
+		got.path, got.query, got.cl = r.URL.Path, r.URL.RawQuery, r.ContentLength
+		got.csValues = append([]string{}, r.Header.Values(httpx.ContentSecurity)...)
+		got.auValues = append([]string{}, r.Header.Values("Authorization")...)
+		defer func() {
+			if p := recover(); p != nil {
+				got.panicked = true
+			}
+		}()
+		h.ServeHTTP(w, r)
+	})
+}
+
+// direct transport: a server-side *http.Request built by hand the way net/http's server builds it
+// (canonical header names, Body never nil, ContentLength -1 for unknown length), served into a recorder.
+func c18Direct(h http.Handler, q c18Req) (string, []byte) {
+	r := httptest.NewRequest(q.method, "http://localhost"+q.target, nil)
+	switch q.fr {
+	case "chunked":
+		r.Body, r.ContentLength = io.NopCloser(bytes.NewReader(q.body)), -1
+	case "nobody":
+		r.Body, r.ContentLength = http.NoBody, 0
+	case "nobody-unknown": // what httptest.NewRequest(m, t, http.NoBody) gives
+		r.Body, r.ContentLength = http.NoBody, -1
+	default:
+		if len(q.body) > 0 {
+			r.Body, r.ContentLength = io.NopCloser(bytes.NewReader(q.body)), int64(len(q.body))
+		} else {
+			r.Body, r.ContentLength = http.NoBody, 0
+		}
+	}
+	if q.clOverride != "" {
+		r.ContentLength = verifh.Atoi64(q.clOverride)
+	}
+	for _, hd := range q.hdrs {
+		k := textproto.CanonicalMIMEHeaderKey(hd.name)
+		r.Header[k] = append(r.Header[k], strings.TrimSpace(hd.value))
+	}
+	w := httptest.NewRecorder()
+	h.ServeHTTP(w, r)
+	return strconv.Itoa(w.Code), w.Body.Bytes()
+}
+
+// wire transport: a real net/http server on the loopback interface; the request is written byte by byte on a
+// TCP connection (header names as given, duplicate header lines, Content-Length or chunked framing).
+type c18Wire struct {
+	srv *httptest.Server
+	cur http.Handler
+}
+
+func (w *c18Wire) close() {
+	if w.srv != nil {
+		w.srv.Close()
+		w.srv = nil
+	}
+}
+
+func (w *c18Wire) do(h http.Handler, q c18Req) (string, []byte) {
+	if w.srv == nil {
+		w.srv = httptest.NewUnstartedServer(http.HandlerFunc(func(rw http.ResponseWriter, r *http.Request) {
+			w.cur.ServeHTTP(rw, r)
+		}))
+		w.srv.Config.ErrorLog = log.New(io.Discard, "", 0)
+		w.srv.Start()
+	}
+	w.cur = h
+	conn, err := net.Dial("tcp", w.srv.Listener.Addr().String())
+	if err != nil {
+		panic(err)
+	}
+	defer conn.Close()
+	conn.SetDeadline(time.Now().Add(20 * time.Second))
+	var b bytes.Buffer
+	fmt.Fprintf(&b, "%s %s HTTP/1.1\r\nHost: localhost\r\nConnection: close\r\n", q.method, q.target)
+	for _, hd := range q.hdrs {
+		fmt.Fprintf(&b, "%s: %s\r\n", hd.name, hd.value)
+	}
+	switch q.fr {
+	case "chunked":
+		b.WriteString("Transfer-Encoding: chunked\r\n\r\n")
+		rest := q.body
+		if len(rest) > 1 {
+			n := (len(rest) + 1) / 2
+			fmt.Fprintf(&b, "%x\r\n", n)
+			b.Write(rest[:n])
+			b.WriteString("\r\n")
+			rest = rest[n:]
+		}
+		if len(rest) > 0 {
+			fmt.Fprintf(&b, "%x\r\n", len(rest))
+			b.Write(rest)
+			b.WriteString("\r\n")
+		}
+		b.WriteString("0\r\n\r\n")
+	case "nobody", "nobody-unknown":
+		b.WriteString("\r\n")
+	default:
+		fmt.Fprintf(&b, "Content-Length: %d\r\n\r\n", len(q.body))
+		b.Write(q.body)
+	}
+	if _, err := conn.Write(b.Bytes()); err != nil {
+		return "NOWRITE", nil
+	}
+	resp, err := http.ReadResponse(bufio.NewReader(conn), &http.Request{Method: q.method})
+	if err != nil {
+		return "NORESPONSE", nil
+	}
+	defer resp.Body.Close()
+	body, _ := io.ReadAll(resp.Body)
+	return strconv.Itoa(resp.StatusCode), body
+}
+
+func (w *c18Wire) send(via string, h http.Handler, q c18Req) (string, []byte) {
+	if via == "wire" {
+		return w.do(h, q)
+	}
+	return c18Direct(h, q)
+}
+
+func c18HexList(vs []string, secret string) string {
+	if len(vs) == 0 {
+		return "none"
+	}
+	var out []string
+	for _, v := range vs {
+		if secret != "" {
+			v = strings.ReplaceAll(v, secret, c18SecretMark)
+		}
+		out = append(out, c18Hex([]byte(v)))
+	}
+	return strings.Join(out, "|")
+}
+
 // ---------------------------------------------------------------- executor
 
 func c18Start(t *testing.T, dir string) func(cfg verifh.Cfg) (func(op []string) string, func()) {
@@ -398,42 +570,138 @@ func c18StartJwt(cfg verifh.Cfg) (func(op []string) string, func()) {
 		opts = append(opts, WithPrevSecret(prev))
 	}
 	mw := Authorize(secret, opts...)
+	wire := &c18Wire{}
 	step := func(op []string) string {
 		if op[0] != "req" {
 			return "bad-op"
 		}
 		kv := c18KV(op)
-		auth := string(c18Unhex(kv["auth"]))
 		now = verifh.Atoi64(kv["now"])
 		if d := verifh.Atoi64(kv["clk"]); d > 0 {
 			timex.VerifAdvance(time.Duration(d))
 		}
-		facts := c18TokenFacts(auth, secret, prev)
-		ran := 0
+		name := "Authorization"
+		if kv["hname"] == "lower" {
+			name = "authorization"
+		}
+		q := c18Req{method: http.MethodGet, target: "/a", fr: "nobody"}
+		if kv["auth"] != "-" {
+			q.hdrs = append(q.hdrs, c18Hdr{name, string(c18Unhex(kv["auth"]))})
+		}
+		if v, ok := kv["auth2"]; ok {
+			q.hdrs = append(q.hdrs, c18Hdr{name, string(c18Unhex(v))})
+		}
+		var got c18Got
+		var facts c18Facts
 		ctxSeen := map[string]string{}
-		h := mw(http.HandlerFunc(func(w http.ResponseWriter, r *http.Request) {
-			ran++
+		inner := http.HandlerFunc(func(w http.ResponseWriter, r *http.Request) {
+			got.ran++
 			for k := range facts.claims {
 				if v := r.Context().Value(k); v != nil {
 					ctxSeen[k] = c18Canon(v)
 				}
 			}
-		}))
-		r := httptest.NewRequest(http.MethodGet, "http://localhost/a", nil)
-		if kv["auth"] != "-" {
-			r.Header["Authorization"] = []string{auth}
+		})
+		front := c18Front(&got, mw(inner))
+		h := http.HandlerFunc(func(w http.ResponseWriter, r *http.Request) {
+			// the facts are about the credential net/http hands over: the first Authorization value
+			auth := ""
+			if vs := r.Header.Values("Authorization"); len(vs) > 0 {
+				auth = vs[0]
+			}
+			facts = c18TokenFacts(auth, secret, prev)
+			front.ServeHTTP(w, r)
+		})
+		status, _ := wire.send(kv["via"], h, q)
+		if !got.reached {
+			return "unreached status=" + status
 		}
-		w := httptest.NewRecorder()
-		status := "PANIC"
-		if !c18Serve(h, w, r) {
-			status = strconv.Itoa(w.Code)
+		if got.panicked {
+			status = "PANIC"
 		}
-		return fmt.Sprintf("%s ran=%d status=%s ctx=%s", facts.text, ran, status, c18Pairs(ctxSeen))
+		return fmt.Sprintf("%s nauth=%d ran=%d status=%s ctx=%s", facts.text, len(got.auValues), got.ran, status, c18Pairs(ctxSeen))
 	}
 	return step, func() {
+		wire.close()
 		jwt.TimeFunc = savedTimeFunc
 		timex.VerifClockOff()
 	}
+}
+
+func c18MutSig(sig, m string) string {
+	if sig == "" {
+		return "A"
+	}
+	switch {
+	case m == "trunc":
+		return sig[:len(sig)-1]
+	case m == "nopad":
+		if t := strings.TrimRight(sig, "="); t != sig {
+			return t
+		}
+		return sig + "="
+	case m == "append":
+		return sig + "A"
+	case strings.HasPrefix(m, "flip"):
+		pos := verifh.Atoi(m[4:]) % len(sig)
+		c := byte('A')
+		if sig[pos] == 'A' {
+			c = 'B'
+		}
+		return sig[:pos] + string(c) + sig[pos+1:]
+	}
+	panic("c18: bad sigmut " + m)
+}
+
+// the X-Content-Security header value(s) a client sends, by variant
+func c18HeaderValues(hv, fp, secret, sig string) []string {
+	field := func(k, v string) string {
+		if v == "" {
+			return ""
+		}
+		return k + "=" + v
+	}
+	join := func(sep string, fs ...string) string {
+		var out []string
+		for _, f := range fs {
+			if f != "" {
+				out = append(out, f)
+			}
+		}
+		return strings.Join(out, sep)
+	}
+	k, s, g := field("key", fp), field("secret", secret), field("signature", sig)
+	std := join("; ", k, s, g)
+	bogus := "key=bogus; secret=" + c18GarbageSecret + "; signature=Zm9yZ2Vk"
+	switch hv {
+	case "", "std", "lower-name":
+		return []string{std}
+	case "reorder":
+		return []string{join("; ", g, s, k)}
+	case "nospace":
+		return []string{join(";", k, s, g)}
+	case "spaces":
+		return []string{join(" ;\t  ", k, s, g) + " ;"}
+	case "junk-fields":
+		return []string{"version=v1; " + std + "; novalue; ;=x"}
+	case "dupfield-last-good":
+		return []string{"key=bogus; signature=Zm9yZ2Vk; secret=" + c18GarbageSecret + "; " + std}
+	case "dupfield-last-bad-key":
+		return []string{std + "; key=bogus"}
+	case "dupfield-last-bad-sig":
+		return []string{std + "; signature=Zm9yZ2Vk"}
+	case "dupfield-last-bad-secret":
+		return []string{std + "; secret=" + c18GarbageSecret}
+	case "field-name-case":
+		return []string{join("; ", field("Key", fp), field("Secret", secret), field("Signature", sig))}
+	case "dup-header-first-good":
+		return []string{std, bogus}
+	case "dup-header-first-bad":
+		return []string{bogus, std}
+	case "empty-value":
+		return []string{""}
+	}
+	panic("c18: bad header variant " + hv)
 }
 
 func c18StartCs(cfg verifh.Cfg, dir string) (func(op []string) string, func()) {
@@ -466,15 +734,23 @@ func c18StartCs(cfg verifh.Cfg, dir string) (func(op []string) string, func()) {
 		decrypters[fp] = d
 		fpKeys[fp] = c18KeyOf(p[1])
 	}
+	rsaFact := func(fp, secret string) string {
+		k, ok := fpKeys[fp]
+		if !ok {
+			return "NOKEY"
+		}
+		return c18RsaOracle(k, secret)
+	}
 	mw := LimitContentSecurityHandler(limit, decrypters, time.Duration(tol)*time.Second, strict)
+	wire := &c18Wire{}
 	step := func(op []string) string {
 		if op[0] != "req" {
 			return "bad-op"
 		}
 		kv := c18KV(op)
 		method := kv["m"]
-		target := "http://localhost" + string(c18Unhex(kv["path"]))
-		if q := string(c18Unhex(kv["query"])); kv["query"] != "-" {
+		target := string(c18Unhex(kv["path"]))
+		if q := string(c18Unhex(kv["query"])); kv["query"] != "-" || kv["fq"] == "1" {
 			target += "?" + q
 		}
 		body := c18Unhex(kv["body"])
@@ -495,29 +771,27 @@ func c18StartCs(cfg verifh.Cfg, dir string) (func(op []string) string, func()) {
 			}
 			now := n0.Unix()
 			ts := strconv.FormatInt(now+dt, 10)
-			var rd io.Reader
-			if len(body) > 0 {
-				rd = bytes.NewReader(body)
-			}
-			r := httptest.NewRequest(method, target, rd)
-			if cl, ok := kv["cl"]; ok {
-				r.ContentLength = verifh.Atoi64(cl)
+			q := c18Req{method: method, target: target, body: body, fr: kv["fr"], clOverride: kv["cl"]}
+			// what url.Parse makes of the target (the server does the same with the request line)
+			tu, err := url.ParseRequestURI(target)
+			if err != nil {
+				return "bad-op-target"
 			}
 			uriFact := "-"
 			if kv["uri"] != "-" {
 				uri := string(c18Unhex(kv["uri"]))
-				r.Header.Set("X-Request-Uri", uri)
+				q.hdrs = append(q.hdrs, c18Hdr{"X-Request-Uri", uri})
 				if u, err := url.Parse(uri); err != nil {
 					uriFact = "ERR"
 				} else {
 					uriFact = c18Hex([]byte(u.Path)) + ":" + c18Hex([]byte(u.RawQuery))
 				}
 			}
-			rsaFact, sigFact := "-", "-"
+			rsaFacts := "-"
+			secret := ""
 			if kv["hdr"] == "1" {
 				fp := string(c18Unhex(kv["fp"]))
 				plain := strings.ReplaceAll(string(c18Unhex(kv["plain"])), "@TS@", ts)
-				var secret string
 				switch kv["sec"] {
 				case "k1", "k2":
 					secret = base64.StdEncoding.EncodeToString(c18RsaEncrypt(c18KeyOf(kv["sec"]), []byte(plain)))
@@ -534,7 +808,7 @@ func c18StartCs(cfg verifh.Cfg, dir string) (func(op []string) string, func()) {
 				var sig string
 				switch {
 				case kv["sig"] == "hmac":
-					sm, sp, sq, sb := method, r.URL.Path, r.URL.RawQuery, body
+					sm, sp, sq, sb := method, tu.Path, tu.RawQuery, body
 					sts := ts
 					if v, ok := kv["sm"]; ok {
 						sm = v
@@ -558,62 +832,65 @@ func c18StartCs(cfg verifh.Cfg, dir string) (func(op []string) string, func()) {
 					mac := hmac.New(sha256.New, c18Unhex(kv["sk"]))
 					mac.Write([]byte(strings.Join([]string{sts, sm, sp, sq, hex.EncodeToString(dg[:])}, "\n")))
 					sig = base64.StdEncoding.EncodeToString(mac.Sum(nil))
+					if m, ok := kv["sigmut"]; ok {
+						sig = c18MutSig(sig, m)
+					}
 				case strings.HasPrefix(kv["sig"], "raw:"):
 					sig = string(c18Unhex(kv["sig"][4:]))
 				default:
 					return "bad-op-sig"
 				}
-				sigFact = c18Hex([]byte(sig))
-				var fields []string
-				if fp != "" {
-					fields = append(fields, "key="+fp)
+				name := httpx.ContentSecurity
+				if kv["hv"] == "lower-name" {
+					name = strings.ToLower(name)
 				}
-				if secret != "" {
-					fields = append(fields, "secret="+secret)
+				for _, v := range c18HeaderValues(kv["hv"], fp, secret, sig) {
+					q.hdrs = append(q.hdrs, c18Hdr{name, v})
 				}
-				if sig != "" {
-					fields = append(fields, "signature="+sig)
-				}
-				r.Header.Set(httpx.ContentSecurity, strings.Join(fields, "; "))
-				if fp != "" && secret != "" && sig != "" {
-					if k, ok := fpKeys[fp]; ok {
-						rsaFact = c18RsaOracle(k, secret)
-					} else {
-						rsaFact = "NOKEY"
+				// RSA facts for every (fingerprint, secret) pair a header variant can make effective
+				var facts []string
+				for _, f := range []string{fp, "bogus"} {
+					if f == "" {
+						continue
 					}
+					if secret != "" {
+						facts = append(facts, c18Hex([]byte(f))+"/P/"+rsaFact(f, secret))
+					}
+					facts = append(facts, c18Hex([]byte(f))+"/G/"+rsaFact(f, c18GarbageSecret))
 				}
+				rsaFacts = strings.Join(facts, ",")
 			}
-			ran := 0
-			var seen []byte
-			h := mw(http.HandlerFunc(func(w http.ResponseWriter, r *http.Request) {
-				ran++
-				seen, _ = io.ReadAll(r.Body)
+			var got c18Got
+			inner := http.HandlerFunc(func(w http.ResponseWriter, r *http.Request) {
+				got.ran++
+				got.seen, _ = io.ReadAll(r.Body)
 				if len(reply) > 0 {
 					w.Write(reply)
 				}
-			}))
-			w := httptest.NewRecorder()
-			path, query, clen := r.URL.Path, r.URL.RawQuery, r.ContentLength
-			panicked := c18Serve(h, w, r)
+			})
+			status, respBody := wire.send(kv["via"], c18Front(&got, mw(inner)), q)
 			if boundary && time.Now().Unix() != now && attempt < 5 {
 				continue // the second ticked while the request was being served: not a deterministic observation
 			}
-			status := strconv.Itoa(w.Code)
-			if panicked {
+			if !got.reached {
+				return "unreached status=" + status
+			}
+			if got.panicked {
 				status = "PANIC"
 			}
-			return fmt.Sprintf("now=%d p=%s q=%s cl=%d uripq=%s rsa=%s sigv=%s aes=%s ran=%d status=%s seen=%s resp=%s",
-				now, c18Hex([]byte(path)), c18Hex([]byte(query)), clen, uriFact, rsaFact, sigFact,
-				c18AesOracle(c18Unhex(kv["ak"]), body, w.Body.Bytes()), ran, status, c18Hex(seen), c18Hex(w.Body.Bytes()))
+			return fmt.Sprintf("now=%d p=%s q=%s cl=%d uripq=%s hdrs=%s rsa=%s aes=%s ran=%d status=%s seen=%s resp=%s",
+				now, c18Hex([]byte(got.path)), c18Hex([]byte(got.query)), got.cl, uriFact, c18HexList(got.csValues, secret), rsaFacts,
+				c18AesOracle(c18Unhex(kv["ak"]), body, respBody), got.ran, status, c18Hex(got.seen), c18Hex(respBody))
 		}
 	}
-	return step, nil
+	return step, wire.close
 }
 
 func c18StartCrypt(cfg verifh.Cfg) (func(op []string) string, func()) {
 	key := c18Unhex(cfg.Str("key", "-"))
 	limit := int64(cfg.Int("limit", 1<<20))
 	mw := LimitCryptionHandler(limit, key)
+	wire := &c18Wire{}
 	step := func(op []string) string {
 		if op[0] != "req" {
 			return "bad-op"
@@ -621,33 +898,26 @@ func c18StartCrypt(cfg verifh.Cfg) (func(op []string) string, func()) {
 		kv := c18KV(op)
 		body := c18Unhex(kv["body"])
 		reply := c18Unhex(kv["reply"])
-		var rd io.Reader
-		if len(body) > 0 {
-			rd = bytes.NewReader(body)
-		}
-		r := httptest.NewRequest(http.MethodPost, "http://localhost/a", rd)
-		if cl, ok := kv["cl"]; ok {
-			r.ContentLength = verifh.Atoi64(cl)
-		}
-		ran := 0
-		var seen []byte
-		h := mw(http.HandlerFunc(func(w http.ResponseWriter, r *http.Request) {
-			ran++
-			seen, _ = io.ReadAll(r.Body)
+		q := c18Req{method: http.MethodPost, target: "/a", body: body, fr: kv["fr"], clOverride: kv["cl"]}
+		var got c18Got
+		inner := http.HandlerFunc(func(w http.ResponseWriter, r *http.Request) {
+			got.ran++
+			got.seen, _ = io.ReadAll(r.Body)
 			if len(reply) > 0 {
 				w.Write(reply)
 			}
-		}))
-		w := httptest.NewRecorder()
-		clen := r.ContentLength
-		status := "PANIC"
-		if !c18Serve(h, w, r) {
-			status = strconv.Itoa(w.Code)
+		})
+		status, respBody := wire.send(kv["via"], c18Front(&got, mw(inner)), q)
+		if !got.reached {
+			return "unreached status=" + status
 		}
-		return fmt.Sprintf("cl=%d aes=%s ran=%d status=%s seen=%s resp=%s", clen,
-			c18AesOracle(key, body, w.Body.Bytes()), ran, status, c18Hex(seen), c18Hex(w.Body.Bytes()))
+		if got.panicked {
+			status = "PANIC"
+		}
+		return fmt.Sprintf("cl=%d aes=%s ran=%d status=%s seen=%s resp=%s", got.cl,
+			c18AesOracle(key, body, respBody), got.ran, status, c18Hex(got.seen), c18Hex(respBody))
 	}
-	return step, nil
+	return step, wire.close
 }
 
 func c18StartText(cfg verifh.Cfg) (func(op []string) string, func()) {
@@ -671,8 +941,6 @@ func c18StartText(cfg verifh.Cfg) (func(op []string) string, func()) {
 	}
 	return step, nil
 }
-
-var _ = context.Background
 
 func TestVerifC18(t *testing.T) {
 	logx.Disable()
@@ -738,7 +1006,156 @@ func c18FlipChar(r *verifh.Rng, s string) string {
 	return string(b)
 }
 
-func c18GenJwt(r *verifh.Rng) verifh.Section {
+// c18Plan hands out every entry of a table once (in a shuffled order) before choices become random:
+// every mutation class is exercised in every run, whatever the seed.
+type c18Plan struct {
+	queue []int
+}
+
+func c18NewPlan(r *verifh.Rng, n int) *c18Plan {
+	q := make([]int, n)
+	for i := range q {
+		q[i] = i
+	}
+	for i := n - 1; i > 0; i-- {
+		j := r.Intn(i + 1)
+		q[i], q[j] = q[j], q[i]
+	}
+	return &c18Plan{queue: q}
+}
+
+// next: the next planned entry, or a weighted random one once the plan is used up (or when !planned)
+func (p *c18Plan) next(r *verifh.Rng, planned bool, weights []int) int {
+	if planned && len(p.queue) > 0 {
+		i := p.queue[0]
+		p.queue = p.queue[1:]
+		return i
+	}
+	total := 0
+	for _, w := range weights {
+		total += w
+	}
+	x := r.Intn(total)
+	for i, w := range weights {
+		if x < w {
+			return i
+		}
+		x -= w
+	}
+	return 0
+}
+
+// ------------------------------------------------ JWT
+
+// one Authorization credential under construction: a valid token first, then exactly one change
+type c18Tok struct {
+	secret, prev, other string
+	now                 int64
+	claims              map[string]any
+	header              map[string]any
+	signWith            string
+	prefix              string
+	post                string // change applied to the encoded token / the request
+	label               string
+}
+
+type c18JwtMut struct {
+	name  string
+	w     int
+	apply func(r *verifh.Rng, t *c18Tok)
+}
+
+func c18JwtMuts() []c18JwtMut {
+	m := []c18JwtMut{
+		{"valid-current", 12, func(r *verifh.Rng, t *c18Tok) {}},
+		{"valid-previous", 6, func(r *verifh.Rng, t *c18Tok) {
+			if t.prev != "" {
+				t.signWith = t.prev
+			} else {
+				t.signWith, t.label = t.other, "inv-secret-previous-not-configured"
+			}
+		}},
+		{"valid-previous-hs512", 2, func(r *verifh.Rng, t *c18Tok) {
+			t.header["alg"] = "HS512"
+			if t.prev != "" {
+				t.signWith = t.prev
+			} else {
+				t.signWith, t.label = t.other, "inv-secret-previous-not-configured"
+			}
+		}},
+		{"eq-prefix-lowercase", 1, func(r *verifh.Rng, t *c18Tok) { t.prefix = "bearer " }},
+		{"eq-prefix-uppercase", 1, func(r *verifh.Rng, t *c18Tok) { t.prefix = "BEARER " }},
+		{"eq-prefix-none", 1, func(r *verifh.Rng, t *c18Tok) { t.prefix = "" }},
+		{"inv-secret-other", 2, func(r *verifh.Rng, t *c18Tok) { t.signWith = t.other }},
+		{"inv-secret-suffix", 1, func(r *verifh.Rng, t *c18Tok) { t.signWith = t.secret + "x" }},
+		{"inv-secret-prefix-of-current", 1, func(r *verifh.Rng, t *c18Tok) { t.signWith = t.secret[:len(t.secret)-1] }},
+		{"inv-secret-empty", 1, func(r *verifh.Rng, t *c18Tok) { t.signWith = "" }},
+		// time claims at and around their boundaries
+		{"inv-exp-equals-now", 2, func(r *verifh.Rng, t *c18Tok) { t.claims["exp"] = t.now }},
+		{"inv-exp-one-second-ago", 1, func(r *verifh.Rng, t *c18Tok) { t.claims["exp"] = t.now - 1 }},
+		{"inv-exp-long-ago", 1, func(r *verifh.Rng, t *c18Tok) { t.claims["exp"] = t.now - int64(r.Range(2, 100000)) }},
+		{"eq-exp-now-plus-one", 2, func(r *verifh.Rng, t *c18Tok) { t.claims["exp"] = t.now + 1 }},
+		{"eq-exp-absent", 1, func(r *verifh.Rng, t *c18Tok) { delete(t.claims, "exp") }},
+		{"inv-nbf-now-plus-one", 2, func(r *verifh.Rng, t *c18Tok) { t.claims["nbf"] = t.now + 1 }},
+		{"inv-nbf-future", 1, func(r *verifh.Rng, t *c18Tok) { t.claims["nbf"] = t.now + int64(r.Range(2, 5000)) }},
+		{"eq-nbf-equals-now", 2, func(r *verifh.Rng, t *c18Tok) { t.claims["nbf"] = t.now }},
+		{"inv-iat-now-plus-one", 2, func(r *verifh.Rng, t *c18Tok) { t.claims["iat"] = t.now + 1 }},
+		{"inv-iat-future", 1, func(r *verifh.Rng, t *c18Tok) { t.claims["iat"] = t.now + int64(r.Range(2, 600)) }},
+		{"eq-iat-equals-now", 2, func(r *verifh.Rng, t *c18Tok) { t.claims["iat"] = t.now }},
+		{"inv-exp-fraction-below-now", 1, func(r *verifh.Rng, t *c18Tok) { t.claims["exp"] = float64(t.now) - 0.5 }},
+		{"time-fraction-above-now", 1, func(r *verifh.Rng, t *c18Tok) { t.claims["exp"] = float64(t.now) + 0.5 }},
+		{"inv-time-claim-string", 1, func(r *verifh.Rng, t *c18Tok) {
+			t.claims[r.PickS("exp", "nbf", "iat")] = r.PickS("soon", "", "12")
+		}},
+		{"time-claim-null", 1, func(r *verifh.Rng, t *c18Tok) { t.claims[r.PickS("exp", "nbf", "iat")] = nil }},
+		{"inv-time-claim-bool", 1, func(r *verifh.Rng, t *c18Tok) { t.claims[r.PickS("exp", "nbf", "iat")] = true }},
+		// algorithm
+		{"inv-alg-none-without-signature", 2, func(r *verifh.Rng, t *c18Tok) { t.header["alg"] = "none"; t.post = "nosig" }},
+		{"inv-alg-none-with-signature", 1, func(r *verifh.Rng, t *c18Tok) { t.header["alg"] = "none" }},
+		{"inv-alg-none-case", 1, func(r *verifh.Rng, t *c18Tok) { t.header["alg"] = r.PickS("None", "NONE", "nOnE") }},
+		{"inv-alg-asymmetric", 2, func(r *verifh.Rng, t *c18Tok) {
+			t.header["alg"] = r.PickS("RS256", "RS384", "RS512", "ES256", "ES384", "ES512", "PS256", "EdDSA")
+		}},
+		{"inv-alg-unknown", 1, func(r *verifh.Rng, t *c18Tok) { t.header["alg"] = r.PickS("HS999", "hs256", "", "HS256 ", "HS") }},
+		{"inv-alg-missing", 1, func(r *verifh.Rng, t *c18Tok) { delete(t.header, "alg") }},
+		{"inv-alg-not-a-string", 1, func(r *verifh.Rng, t *c18Tok) { t.header["alg"] = 256 }},
+		{"inv-alg-swapped-after-signing", 2, func(r *verifh.Rng, t *c18Tok) { t.post = "swap-alg" }},
+		// header / payload / signature of the encoded token
+		{"inv-header-flipped", 2, func(r *verifh.Rng, t *c18Tok) { t.post = "flip-header" }},
+		{"inv-payload-flipped", 2, func(r *verifh.Rng, t *c18Tok) { t.post = "flip-payload" }},
+		{"inv-payload-swapped", 2, func(r *verifh.Rng, t *c18Tok) { t.post = "swap-payload" }},
+		{"sig-flipped", 3, func(r *verifh.Rng, t *c18Tok) { t.post = "flip-sig" }},
+		{"sig-unused-bits-changed", 2, func(r *verifh.Rng, t *c18Tok) { t.post = "sig-unused-bits" }},
+		{"inv-sig-truncated", 1, func(r *verifh.Rng, t *c18Tok) { t.post = "truncate-sig" }},
+		{"inv-sig-empty", 1, func(r *verifh.Rng, t *c18Tok) { t.post = "nosig" }},
+		{"inv-sig-padded", 1, func(r *verifh.Rng, t *c18Tok) { t.post = "padded-sig" }},
+		{"sig-standard-alphabet", 1, func(r *verifh.Rng, t *c18Tok) { t.post = "std-b64" }},
+		{"payload-padded", 1, func(r *verifh.Rng, t *c18Tok) { t.post = "padded-payload" }},
+		{"inv-sig-of-other-token", 1, func(r *verifh.Rng, t *c18Tok) { t.post = "foreign-sig" }},
+		{"inv-header-not-json", 1, func(r *verifh.Rng, t *c18Tok) { t.post = "hdr-notjson" }},
+		{"inv-header-json-null", 1, func(r *verifh.Rng, t *c18Tok) { t.post = "hdr-null" }},
+		{"inv-payload-not-json", 1, func(r *verifh.Rng, t *c18Tok) { t.post = "clm-notjson" }},
+		{"inv-payload-json-array", 1, func(r *verifh.Rng, t *c18Tok) { t.post = "clm-array" }},
+		{"payload-json-null", 1, func(r *verifh.Rng, t *c18Tok) { t.post = "clm-null" }},
+		{"payload-trailing-text", 1, func(r *verifh.Rng, t *c18Tok) { t.post = "clm-trailing" }},
+		{"inv-segments-two", 1, func(r *verifh.Rng, t *c18Tok) { t.post = "two-segs" }},
+		{"inv-segments-four", 1, func(r *verifh.Rng, t *c18Tok) { t.post = "four-segs" }},
+		{"inv-segments-trailing-dot", 1, func(r *verifh.Rng, t *c18Tok) { t.post = "trailing-dot" }},
+		{"inv-segments-one", 1, func(r *verifh.Rng, t *c18Tok) { t.post = "one-seg" }},
+		// the Authorization header itself
+		{"inv-authorization-absent", 2, func(r *verifh.Rng, t *c18Tok) { t.post = "absent" }},
+		{"inv-authorization-empty-bearer", 1, func(r *verifh.Rng, t *c18Tok) { t.post = "empty-bearer" }},
+		{"inv-authorization-basic", 1, func(r *verifh.Rng, t *c18Tok) { t.post = "basic" }},
+		{"inv-authorization-garbage", 1, func(r *verifh.Rng, t *c18Tok) { t.post = "garbage" }},
+		{"inv-authorization-double-prefix", 1, func(r *verifh.Rng, t *c18Tok) { t.prefix = "Bearer Bearer " }},
+		{"eq-authorization-duplicate-first-valid", 2, func(r *verifh.Rng, t *c18Tok) { t.post = "dup-first-valid" }},
+		{"inv-authorization-duplicate-first-invalid", 2, func(r *verifh.Rng, t *c18Tok) { t.post = "dup-first-invalid" }},
+		{"eq-authorization-name-lowercase", 2, func(r *verifh.Rng, t *c18Tok) { t.post = "lower-name" }},
+	}
+	return m
+}
+
+func c18GenJwt(r *verifh.Rng, plan *c18Plan, muts []c18JwtMut, weights []int) verifh.Section {
 	secret := c18RandWord(r, 6, 24)
 	prev := ""
 	if r.Chance(7, 10) {
@@ -789,78 +1206,14 @@ func c18GenJwt(r *verifh.Rng) verifh.Section {
 			claims["nbf"] = now - int64(r.Range(0, 1000))
 		}
 		alg := r.PickS("HS256", "HS256", "HS256", "HS384", "HS512")
-		signWith := secret
-		header := map[string]any{"alg": alg, "typ": "JWT"}
-		prefix := r.PickS("Bearer ", "Bearer ", "Bearer ", "bearer ", "BEARER ", "")
-		mutate := "" // applied after signing
-		scenario := r.Intn(40)
-		switch scenario {
-		case 0, 1, 2, 3, 4, 5: // valid under the current secret
-		case 6, 7, 8:
-			if prev != "" {
-				signWith = prev
-			}
-		case 9:
-			signWith = other
-		case 10:
-			signWith = secret + "x"
-		case 11:
-			claims["exp"] = now - int64(r.Pick(0, 1, 1000))
-		case 12:
-			claims["exp"] = now + 1
-		case 13:
-			claims["nbf"] = now + int64(r.Pick(1, 2, 5000))
-		case 14:
-			claims["nbf"] = now
-			claims["iat"] = now
-		case 15:
-			claims["iat"] = now + int64(r.Pick(1, 60))
-		case 16:
-			claims[r.PickS("exp", "nbf", "iat")] = r.PickS("soon", "", "12")
-		case 17:
-			claims[r.PickS("exp", "nbf", "iat")] = nil
-		case 18:
-			claims["exp"] = float64(now) + 0.5
-		case 19:
-			header["alg"] = "none"
-			mutate = r.PickS("nosig", "keepsig")
-		case 20:
-			header["alg"] = r.PickS("RS256", "RS384", "ES256", "PS256", "EdDSA", "ES512")
-		case 21:
-			header["alg"] = r.PickS("HS999", "hs256", "", "None", "NONE")
-		case 22:
-			delete(header, "alg")
-		case 23:
-			header["alg"] = 256
-		case 24:
-			mutate = "flip-header"
-		case 25:
-			mutate = "flip-payload"
-		case 26, 27:
-			mutate = "flip-sig"
-		case 28:
-			mutate = "swap-payload"
-		case 29:
-			mutate = "absent"
-		case 30:
-			mutate = r.PickS("empty-bearer", "basic", "garbage")
-		case 31:
-			mutate = r.PickS("two-segs", "four-segs", "trailing-dot", "one-seg")
-		case 32:
-			mutate = r.PickS("hdr-notjson", "clm-notjson", "clm-array", "hdr-null", "clm-null", "clm-trailing")
-		case 33:
-			mutate = r.PickS("padded-sig", "padded-payload", "std-b64")
-		case 34:
-			mutate = "truncate-sig"
-		case 35:
-			// a token for the previous secret while none is configured / signed by prev with other alg
-			signWith = prev + ""
-			if prev == "" {
-				signWith = other
-			}
-			header["alg"] = "HS512"
-		default:
-		}
+		t := &c18Tok{secret: secret, prev: prev, other: other, now: now, claims: claims,
+			header: map[string]any{"alg": alg, "typ": "JWT"}, signWith: secret,
+			prefix: r.PickS("Bearer ", "Bearer ", "Bearer ", "Bearer ", "bearer ", "")}
+		mi := plan.next(r, true, weights)
+		t.label = muts[mi].name
+		muts[mi].apply(r, t)
+		mutate := t.post
+		header, signWith := t.header, t.signWith
 		hs, ps := c18Seg(header), c18Seg(claims)
 		switch mutate {
 		case "hdr-notjson":
@@ -879,23 +1232,61 @@ func c18GenJwt(r *verifh.Rng) verifh.Section {
 		case "padded-payload":
 			b, _ := json.Marshal(claims)
 			ps = base64.URLEncoding.EncodeToString(b)
+			if strings.HasSuffix(ps, "=") {
+				t.label = "inv-payload-padded"
+			} else {
+				t.label = "eq-payload-padding-not-needed"
+			}
 		}
 		algS, _ := header["alg"].(string)
 		sig := c18Sign(algS, signWith, hs+"."+ps)
 		tok := hs + "." + ps + "." + sig
+		auth2, hname := "", ""
 		switch mutate {
 		case "nosig":
 			tok = hs + "." + ps + "."
+		case "swap-alg":
+			other := "HS512"
+			if algS == "HS512" {
+				other = "HS256"
+			}
+			header["alg"] = other
+			tok = c18Seg(header) + "." + ps + "." + sig
 		case "flip-header":
 			tok = c18FlipChar(r, hs) + "." + ps + "." + sig
 		case "flip-payload":
 			tok = hs + "." + c18FlipChar(r, ps) + "." + sig
 		case "flip-sig":
-			tok = hs + "." + ps + "." + c18FlipChar(r, sig)
+			fs := c18FlipChar(r, sig)
+			tok = hs + "." + ps + "." + fs
+			a, _ := base64.RawURLEncoding.DecodeString(sig)
+			b, err := base64.RawURLEncoding.DecodeString(fs)
+			if err == nil && bytes.Equal(a, b) {
+				t.label = "eq-sig-unused-bits-flipped"
+			} else {
+				t.label = "inv-sig-flipped"
+			}
+		case "sig-unused-bits":
+			// the last character of an unpadded base64 text may carry bits that encode nothing (2 for HS256, 4 for HS512,
+			// none for HS384): changing only those gives another text for the same signature bytes
+			const al = "ABCDEFGHIJKLMNOPQRSTUVWXYZabcdefghijklmnopqrstuvwxyz0123456789-_"
+			last := strings.IndexByte(al, sig[len(sig)-1])
+			fs := sig[:len(sig)-1] + string(al[last^1])
+			tok = hs + "." + ps + "." + fs
+			a, _ := base64.RawURLEncoding.DecodeString(sig)
+			b, err := base64.RawURLEncoding.DecodeString(fs)
+			if err == nil && bytes.Equal(a, b) {
+				t.label = "eq-sig-unused-bits-changed"
+			} else {
+				t.label = "inv-sig-last-bit-changed"
+			}
 		case "swap-payload":
 			claims["uid"] = 1
 			claims["role"] = "admin"
+			claims["swapped"] = true
 			tok = hs + "." + c18Seg(claims) + "." + sig
+		case "foreign-sig":
+			tok = hs + "." + ps + "." + c18Sign(algS, signWith, hs+"."+c18Seg(map[string]any{"uid": 1}))
 		case "two-segs":
 			tok = hs + "." + ps
 		case "four-segs":
@@ -908,11 +1299,17 @@ func c18GenJwt(r *verifh.Rng) verifh.Section {
 			tok = hs + "." + ps + "." + sig + "="
 		case "std-b64":
 			raw, _ := base64.RawURLEncoding.DecodeString(sig)
-			tok = hs + "." + ps + "." + base64.RawStdEncoding.EncodeToString(raw)
+			ss := base64.RawStdEncoding.EncodeToString(raw)
+			tok = hs + "." + ps + "." + ss
+			if ss == sig {
+				t.label = "eq-sig-alphabets-agree"
+			} else {
+				t.label = "inv-sig-standard-alphabet"
+			}
 		case "truncate-sig":
 			tok = hs + "." + ps + "." + sig[:len(sig)-r.Range(1, 4)]
 		}
-		auth := prefix + tok
+		auth := t.prefix + tok
 		switch mutate {
 		case "absent":
 			auth = ""
@@ -922,187 +1319,524 @@ func c18GenJwt(r *verifh.Rng) verifh.Section {
 			auth = "Basic " + tok
 		case "garbage":
 			auth = c18RandWord(r, 1, 30)
+		case "dup-first-valid":
+			auth2 = "Bearer " + hs + "." + ps + "." + c18FlipChar(r, sig[:20]) + sig[20:]
+		case "dup-first-invalid":
+			auth2 = auth
+			auth = "Bearer " + hs + "." + ps + "." + c18Sign(algS, other, hs+"."+ps)
+		case "lower-name":
+			hname = "lower"
 		}
 		clk := int64(r.Range(0, 5)) * 1_000_000_000
 		if r.Chance(1, 15) {
 			clk = 90000 * 1_000_000_000 // past the 24 h history reset
 		}
-		ops = append(ops, fmt.Sprintf("req auth=%s now=%d clk=%d", c18H(auth), now, clk))
-	}
-	return verifh.Section{Cfg: cfg, Ops: ops}
-}
-
-var c18Paths = []string{"/a/b", "/", "/api/v1/users/42", "/x", "/a/b/c.json", "/A_b-c"}
-var c18Queries = []string{"", "c=d&e=f", "x=1", "q=a%20b", "k"}
-
-func c18AesKey(r *verifh.Rng) []byte { return c18RandBytes(r, r.Pick(16, 16, 24, 32)) }
-
-func c18GenCs(r *verifh.Rng) verifh.Section {
-	strict := 1
-	if r.Chance(1, 5) {
-		strict = 0
-	}
-	tol := r.Pick(5, 60, 3600)
-	limit := r.Pick(1<<20, 1<<20, 1<<20, 64)
-	fps := c18H("good") + ":k1"
-	if r.Bool() {
-		fps += "," + c18H("other") + ":k2"
-	}
-	cfg := fmt.Sprintf("kind=cs strict=%d tol=%d limit=%d fps=%s", strict, tol, limit, fps)
-	var ops []string
-	nreq := r.Range(8, verifh.Scale(25, 40))
-	for i := 0; i < nreq; i++ {
-		method := r.PickS("GET", "POST", "POST", "PUT", "DELETE")
-		path := c18Paths[r.Intn(len(c18Paths))]
-		query := c18Queries[r.Intn(len(c18Queries))]
-		key := c18AesKey(r)
-		typ := "0"
-		var payload, body []byte
-		if method != "GET" || r.Chance(1, 5) {
-			payload = c18RandBytes(r, r.Pick(0, 1, 5, 15, 16, 17, 31, 32, 33, r.Range(0, 80)))
+		op := fmt.Sprintf("req auth=%s now=%d clk=%d mut=%s", c18H(auth), now, clk, t.label)
+		if auth2 != "" {
+			op += " auth2=" + c18H(auth2)
 		}
-		body = payload
-		if r.Chance(2, 5) {
-			typ = "1"
-			if len(payload) > 0 || r.Chance(1, 4) {
-				body = c18ClientEncrypt(key, payload)
-			}
+		if hname != "" {
+			op += " hname=" + hname
 		}
-		reply := c18RandBytes(r, r.Pick(0, 1, 5, 15, 16, 17, 32, r.Range(0, 60)))
-		f := map[string]string{"hdr": "1", "fp": c18H("good"), "sec": "k1", "sig": "hmac", "dt": "0"}
-		keyB64 := base64.StdEncoding.EncodeToString(key)
-		plain := "version=v1; type=" + typ + "; key=" + keyB64 + "; time=@TS@"
-		sk := key
-		uri := ""
-		extra := map[string]string{}
-		scenario := r.Intn(60)
-		switch scenario {
-		case 0, 1, 2, 3, 4, 5, 6, 7: // valid
-		case 8:
-			f["dt"] = strconv.Itoa(r.Pick(tol, -tol, tol-1, -(tol - 1)))
-		case 9:
-			f["dt"] = strconv.Itoa(r.Pick(tol+1, -(tol + 1), tol+100, -(tol + 100), 100000, -100000))
-		case 10:
-			f["dt"] = strconv.Itoa(r.Range(-tol+2, tol-2))
-		case 11:
-			extra["sm"] = r.PickS("GET", "POST", "PUT", "DELETE", "PATCH")
-		case 12:
-			extra["sp"] = c18H(c18Paths[r.Intn(len(c18Paths))] + r.PickS("", "x", "/"))
-		case 13:
-			extra["sq"] = c18H(c18Queries[r.Intn(len(c18Queries))] + r.PickS("", "&z=1"))
-		case 14:
-			extra["sb"] = c18Hex(append(append([]byte{}, body...), byte(r.Intn(256))))
-		case 15:
-			extra["sdt"] = strconv.Itoa(r.Pick(1, -1, 10))
-		case 16:
-			sk = c18AesKey(r)
-		case 17:
-			f["fp"] = r.PickS(c18H("other"), c18H("nobody"), "-", c18H("Good"))
-		case 18:
-			f["hdr"] = "0"
-		case 19:
-			f["sec"] = r.PickS("garbage", "badb64", "empty", "k2")
-		case 20:
-			f["sig"] = "raw:" + r.PickS("-", c18H("badone"), c18H(base64.StdEncoding.EncodeToString(c18RandBytes(r, 32))))
-		case 21:
-			plain = "version=v1; type=" + typ + "; key=" + keyB64
-		case 22:
-			plain = "version=v1; type=" + typ + "; key=" + keyB64 + "; time=" + r.PickS("abc", "12x", "", "1e9", "99999999999999999999", " @TS@x")
-		case 23:
-			plain = "version=v1; type=" + typ + "; key=" + keyB64 + "; time=+@TS@"
-			extra["stspre"] = c18H("+")
-		case 24:
-			plain = "version=v1; type=" + typ + "; time=@TS@"
-			sk = nil
-		case 25:
-			plain = "version=v1; type=" + typ + "; key=" + r.PickS("!!!", keyB64[:len(keyB64)-1], keyB64+"=") + "; time=@TS@"
-		case 26:
-			plain = "version=v1; key=" + keyB64 + "; time=@TS@"
-		case 27:
-			plain = "version=v1; type=" + r.PickS("abc", "", "1x", "2", "-1", "+1", "01") + "; key=" + keyB64 + "; time=@TS@"
-		case 28:
-			plain = "time=@TS@;key=" + keyB64 + " ;  type=" + typ + ";;junk; version=v1"
-		case 29:
-			plain = "type=9; key=AAAA; time=5; version=v1; type=" + typ + "; key=" + keyB64 + "; time=@TS@"
-		case 30, 31, 32, 33: // methods the handler does not look at
-			method = r.PickS("PATCH", "HEAD", "OPTIONS", "TRACE", "PATCH")
-			switch r.Intn(4) {
-			case 0:
-				f["hdr"] = "0"
-			case 1:
-				f["sig"] = "raw:" + c18H("forged")
-			case 2:
-				extra["sb"] = c18H("other body")
-			}
-		case 34: // X-Request-Uri naming the request itself
-			uri = "http://localhost" + path
-			if query != "" {
-				uri += "?" + query
-			}
-		case 35, 36: // X-Request-Uri naming something else, signature over the header's path/query
-			up, uq := c18Paths[r.Intn(len(c18Paths))]+"/other", r.PickS("", "z=9")
-			uri = r.PickS("", "http://remotehost", "https://h:8443") + up
-			if uq != "" {
-				uri += "?" + uq
-			}
-			extra["sp"], extra["sq"] = c18H(up), c18H(uq)
-		case 37: // X-Request-Uri naming something else, signature over the real request
-			uri = "/somewhere/else?z=9"
-		case 38: // unparsable X-Request-Uri: ignored
-			uri = r.PickS("http://[::1", "%zz", "http://a b/")
-		case 39: // broken ciphertext bodies
-			typ = "1"
-			plain = "version=v1; type=1; key=" + keyB64 + "; time=@TS@"
-			good := c18ClientEncrypt(key, c18RandBytes(r, r.Range(1, 40)))
-			switch r.Intn(6) {
-			case 0:
-				body = []byte("\n")
-			case 1:
-				body = append([]byte{}, good...)
-				body[r.Intn(len(body))] = '!'
-			case 2:
-				raw, _ := base64.StdEncoding.DecodeString(string(good))
-				body = []byte(base64.StdEncoding.EncodeToString(raw[:len(raw)-r.Range(1, 15)]))
-			case 3:
-				body = append(append(append([]byte{}, good[:4]...), '\r', '\n'), good[4:]...)
-			case 4:
-				body = c18ClientEncrypt(key, nil) // one block of padding only
-			case 5:
-				body = c18ClientEncrypt(c18AesKey(r), c18RandBytes(r, r.Range(1, 40))) // encrypted under another key
-			}
-			if method == "GET" {
-				method = "POST"
-			}
-		case 40: // a key AES does not accept (HMAC does)
-			key = c18RandBytes(r, r.Pick(5, 15, 17, 33))
-			sk = key
-			keyB64 = base64.StdEncoding.EncodeToString(key)
-			plain = "version=v1; type=" + typ + "; key=" + keyB64 + "; time=@TS@"
-		case 41:
-			if len(body) > 0 {
-				extra["cl"] = strconv.Itoa(r.Pick(-1, 0, len(body)-1, len(body)+3))
-			}
-		case 42: // long secret: more than one RSA block
-			plain = "version=v1; pad=" + c18RandWord(r, 120, 200) + "; type=" + typ + "; key=" + keyB64 + "; time=@TS@"
-		default:
-		}
-		op := fmt.Sprintf("req m=%s path=%s query=%s uri=%s hdr=%s fp=%s sec=%s plain=%s sig=%s dt=%s sk=%s ak=%s body=%s reply=%s",
-			method, c18H(path), c18H(query), c18H(uri), f["hdr"], f["fp"], f["sec"], c18H(plain), f["sig"], f["dt"],
-			c18Hex(sk), c18Hex(key), c18Hex(body), c18Hex(reply))
-		var ks []string
-		for k := range extra {
-			ks = append(ks, k)
-		}
-		sort.Strings(ks)
-		for _, k := range ks {
-			op += " " + k + "=" + extra[k]
+		if hname != "" || auth2 != "" || r.Chance(1, 8) {
+			op += " via=wire"
 		}
 		ops = append(ops, op)
 	}
 	return verifh.Section{Cfg: cfg, Ops: ops}
 }
 
-func c18GenCrypt(r *verifh.Rng) verifh.Section {
+// ------------------------------------------------ content security
+
+var c18Paths = []string{"/a/b", "/", "/api/v1/users/42", "/x", "/a/b/c.json", "/A_b-c", "/a/b/", "/a%20b/c", "/a%2Fb", "/caf%C3%A9", "/a/./b", "/a//b", "/a;v=1/b", "/a+b"}
+var c18Queries = []string{"", "c=d&e=f", "x=1", "q=a%20b", "k", "q=a+b", "a=1&a=2", "x=%26&y=%3D", "e=f&c=d"}
+
+func c18AesKey(r *verifh.Rng) []byte { return c18RandBytes(r, r.Pick(16, 16, 24, 32)) }
+
+// one signed request under construction: a valid request first, then exactly one change
+type c18CsOp struct {
+	r       *verifh.Rng
+	tol     int
+	twoKeys bool // the section also configures fingerprint "other" (key k2)
+	method  string
+	path    string
+	query   string
+	forceQ  bool
+	key     []byte
+	typ     string
+	payload []byte
+	body    []byte
+	reply   []byte
+	f       map[string]string
+	plain   string // "" = the standard secret text
+	sk      []byte
+	skSet   bool
+	uri     string
+	extra   map[string]string
+	fr      string
+	via     string
+	label   string
+}
+
+func (o *c18CsOp) keyB64() string { return base64.StdEncoding.EncodeToString(o.key) }
+
+// encryptIfTyped (re)computes the body from the payload
+func (o *c18CsOp) setPayload(p []byte, encrypted bool) {
+	o.payload = p
+	if encrypted {
+		o.typ = "1"
+		o.body = c18ClientEncrypt(o.key, p)
+	} else {
+		o.typ = "0"
+		o.body = p
+	}
+}
+
+// needBody makes sure the valid request has a non-empty body (and a method that usually carries one)
+func (o *c18CsOp) needBody() {
+	if o.method == "GET" || o.method == "DELETE" {
+		o.method = o.r.PickS("POST", "PUT")
+	}
+	if len(o.body) == 0 {
+		o.setPayload(c18RandBytes(o.r, o.r.Range(1, 60)), o.typ == "1")
+	}
+	if o.fr == "nobody" || o.fr == "nobody-unknown" {
+		o.fr = "len"
+	}
+}
+
+func (o *c18CsOp) noBody() {
+	o.typ = "0"
+	o.payload, o.body = nil, nil
+}
+
+type c18CsMut struct {
+	name  string
+	w     int
+	apply func(o *c18CsOp)
+}
+
+func c18OtherOf(r *verifh.Rng, cur string, xs ...string) string {
+	for {
+		if x := xs[r.Intn(len(xs))]; x != cur {
+			return x
+		}
+	}
+}
+
+func c18SwapCase(s string) string {
+	b := []byte(s)
+	for i, c := range b {
+		if c >= 'a' && c <= 'z' {
+			b[i] = c - 32
+			return string(b)
+		}
+		if c >= 'A' && c <= 'Z' {
+			b[i] = c + 32
+			return string(b)
+		}
+	}
+	return s + "X"
+}
+
+func c18CsMuts() []c18CsMut {
+	var m []c18CsMut
+	add := func(name string, w int, f func(o *c18CsOp)) { m = append(m, c18CsMut{name, w, f}) }
+	dt := func(o *c18CsOp, d int) { o.f["dt"] = strconv.Itoa(d) }
+
+	add("valid", 20, func(o *c18CsOp) {})
+	// ---- framing of a valid request
+	add("valid-known-length", 3, func(o *c18CsOp) { o.needBody(); o.fr = "len" })
+	add("valid-chunked", 4, func(o *c18CsOp) { o.needBody(); o.fr = "chunked" })
+	add("valid-chunked-wire", 2, func(o *c18CsOp) { o.needBody(); o.fr, o.via = "chunked", "wire" })
+	add("valid-known-length-wire", 2, func(o *c18CsOp) { o.needBody(); o.fr, o.via = "len", "wire" })
+	add("valid-chunked-empty", 2, func(o *c18CsOp) { o.noBody(); o.fr = "chunked" })
+	add("valid-no-body", 2, func(o *c18CsOp) { o.noBody(); o.fr = "nobody" })
+	add("valid-no-body-unknown-length", 2, func(o *c18CsOp) { o.noBody(); o.fr = "nobody-unknown" })
+	add("valid-encrypted-known-length", 4, func(o *c18CsOp) {
+		o.needBody()
+		o.setPayload(o.payload, true)
+		o.fr = "len"
+	})
+	add("valid-encrypted-chunked", 4, func(o *c18CsOp) {
+		o.needBody()
+		o.setPayload(o.payload, true)
+		o.fr = "chunked"
+	})
+	add("valid-encrypted-chunked-wire", 2, func(o *c18CsOp) {
+		o.needBody()
+		o.setPayload(o.payload, true)
+		o.fr, o.via = "chunked", "wire"
+	})
+	add("valid-encrypted-empty-payload", 2, func(o *c18CsOp) {
+		o.needBody()
+		o.setPayload(nil, true)
+		o.fr = o.r.PickS("len", "chunked")
+	})
+	add("valid-type1-no-body", 2, func(o *c18CsOp) {
+		o.noBody()
+		o.typ = "1"
+		o.fr = o.r.PickS("nobody", "chunked", "nobody-unknown")
+	})
+	add("valid-get-with-body", 1, func(o *c18CsOp) { o.needBody(); o.method = "GET" })
+	add("valid-long-secret", 1, func(o *c18CsOp) { // more than one RSA block
+		o.plain = "version=v1; pad=" + c18RandWord(o.r, 120, 200) + "; type=" + o.typ + "; key=" + o.keyB64() + "; time=@TS@"
+	})
+	add("eq-secret-fields-reordered", 1, func(o *c18CsOp) {
+		o.plain = "time=@TS@;key=" + o.keyB64() + " ;  type=" + o.typ + ";;junk; version=v1"
+	})
+	add("eq-secret-duplicate-fields-last-wins", 1, func(o *c18CsOp) {
+		o.plain = "type=9; key=AAAA; time=5; version=v1; type=" + o.typ + "; key=" + o.keyB64() + "; time=@TS@"
+	})
+	// ---- timestamp
+	add("eq-ts-edge-future", 3, func(o *c18CsOp) { dt(o, o.tol) })
+	add("eq-ts-edge-past", 3, func(o *c18CsOp) { dt(o, -o.tol) })
+	add("eq-ts-inside-future", 2, func(o *c18CsOp) { dt(o, o.tol-1) })
+	add("eq-ts-inside-past", 2, func(o *c18CsOp) { dt(o, -(o.tol - 1)) })
+	add("inv-ts-outside-future", 3, func(o *c18CsOp) { dt(o, o.tol+1) })
+	add("inv-ts-outside-past", 3, func(o *c18CsOp) { dt(o, -(o.tol + 1)) })
+	add("inv-ts-far-future", 1, func(o *c18CsOp) { dt(o, o.r.Pick(o.tol+100, 100000, 1<<33)) })
+	add("inv-ts-far-past", 1, func(o *c18CsOp) { dt(o, -o.r.Pick(o.tol+100, 100000, 1<<33)) })
+	add("eq-ts-anywhere-inside", 2, func(o *c18CsOp) { dt(o, o.r.Range(-o.tol+2, o.tol-2)) })
+	add("inv-ts-signed-differs", 2, func(o *c18CsOp) { o.extra["sdt"] = strconv.Itoa(o.r.Pick(1, -1, 10)) })
+	add("inv-ts-missing", 1, func(o *c18CsOp) { o.plain = "version=v1; type=" + o.typ + "; key=" + o.keyB64() })
+	add("inv-ts-malformed", 2, func(o *c18CsOp) {
+		o.plain = "version=v1; type=" + o.typ + "; key=" + o.keyB64() + "; time=" +
+			o.r.PickS("abc", "12x", "", "1e9", "99999999999999999999", " @TS@x", "0x10", "@TS@.0", "-")
+	})
+	add("eq-ts-plus-sign", 1, func(o *c18CsOp) {
+		o.plain = "version=v1; type=" + o.typ + "; key=" + o.keyB64() + "; time=+@TS@"
+		o.extra["stspre"] = c18H("+")
+	})
+	add("inv-ts-plus-sign-not-signed", 1, func(o *c18CsOp) {
+		o.plain = "version=v1; type=" + o.typ + "; key=" + o.keyB64() + "; time=+@TS@"
+	})
+	add("inv-ts-leading-zero-not-signed", 1, func(o *c18CsOp) {
+		o.plain = "version=v1; type=" + o.typ + "; key=" + o.keyB64() + "; time=0@TS@"
+	})
+	// ---- method
+	add("inv-method-signed-other", 3, func(o *c18CsOp) {
+		o.extra["sm"] = c18OtherOf(o.r, o.method, "GET", "POST", "PUT", "DELETE", "PATCH")
+	})
+	add("inv-method-signed-lowercase", 1, func(o *c18CsOp) { o.extra["sm"] = strings.ToLower(o.method) })
+	// ---- path
+	add("inv-path-signed-other", 2, func(o *c18CsOp) {
+		o.path = o.r.PickS("/a/b", "/x", "/api/v1/users/42")
+		o.extra["sp"] = c18H(c18OtherOf(o.r, o.path, "/a/b", "/", "/x", "/other"))
+	})
+	add("inv-path-signed-suffix", 1, func(o *c18CsOp) { o.path = o.r.PickS("/a/b", "/x"); o.extra["sp"] = c18H(o.path + "x") })
+	add("inv-path-signed-with-trailing-slash", 2, func(o *c18CsOp) {
+		o.path = o.r.PickS("/a/b", "/x", "/api/v1/users/42")
+		o.extra["sp"] = c18H(o.path + "/")
+	})
+	add("inv-path-signed-without-trailing-slash", 2, func(o *c18CsOp) { o.path = "/a/b/"; o.extra["sp"] = c18H("/a/b") })
+	add("inv-path-signed-other-case", 1, func(o *c18CsOp) { o.path = o.r.PickS("/a/b", "/A_b-c"); o.extra["sp"] = c18H(c18SwapCase(o.path)) })
+	add("inv-path-signed-percent-encoded", 2, func(o *c18CsOp) { // the client signs the escaped text, the server the decoded one
+		o.path = o.r.PickS("/a%20b/c", "/a%2Fb", "/caf%C3%A9")
+		o.extra["sp"] = c18H(o.path)
+	})
+	add("inv-path-signed-dot-segment-removed", 1, func(o *c18CsOp) { o.path = "/a/./b"; o.extra["sp"] = c18H("/a/b") })
+	add("inv-path-signed-double-slash-merged", 1, func(o *c18CsOp) { o.path = "/a//b"; o.extra["sp"] = c18H("/a/b") })
+	add("inv-path-signed-empty", 1, func(o *c18CsOp) { o.path = "/"; o.extra["sp"] = "-" })
+	add("eq-path-percent-encoded", 2, func(o *c18CsOp) { o.path = o.r.PickS("/a%20b/c", "/a%2Fb", "/caf%C3%A9", "/%61/b") })
+	add("eq-path-trailing-slash", 1, func(o *c18CsOp) { o.path = "/a/b/" })
+	// ---- query
+	add("inv-query-signed-other", 2, func(o *c18CsOp) { o.extra["sq"] = c18H(c18OtherOf(o.r, o.query, "c=d&e=f", "x=1", "k", "x=2")) })
+	add("inv-query-signed-appended", 1, func(o *c18CsOp) { o.extra["sq"] = c18H(o.query + "&z=1") })
+	add("inv-query-signed-reordered", 2, func(o *c18CsOp) { o.query = "c=d&e=f"; o.extra["sq"] = c18H("e=f&c=d") })
+	add("inv-query-signed-decoded", 2, func(o *c18CsOp) { o.query = "q=a%20b"; o.extra["sq"] = c18H("q=a b") })
+	add("inv-query-signed-plus-for-space", 1, func(o *c18CsOp) { o.query = "q=a%20b"; o.extra["sq"] = c18H("q=a+b") })
+	add("inv-query-signed-missing", 2, func(o *c18CsOp) { o.query = o.r.PickS("x=1", "c=d&e=f", "k"); o.extra["sq"] = "-" })
+	add("inv-query-signed-but-none-sent", 2, func(o *c18CsOp) { o.query = ""; o.extra["sq"] = c18H("x=1") })
+	add("inv-query-signed-trailing-ampersand", 1, func(o *c18CsOp) { o.query = "x=1"; o.extra["sq"] = c18H("x=1&") })
+	add("inv-query-signed-with-question-mark", 1, func(o *c18CsOp) { o.query = "x=1"; o.extra["sq"] = c18H("?x=1") })
+	add("eq-query-empty-but-present", 2, func(o *c18CsOp) { o.query = ""; o.forceQ = true })
+	add("eq-query-percent-encoded", 1, func(o *c18CsOp) { o.query = o.r.PickS("q=a%20b", "x=%26&y=%3D", "q=a+b") })
+	add("eq-query-duplicate-parameter", 1, func(o *c18CsOp) { o.query = "a=1&a=2" })
+	// ---- body, for both framings
+	for _, fr := range []string{"len", "chunked"} {
+		fr := fr
+		sfx := "-known-length"
+		if fr == "chunked" {
+			sfx = "-chunked"
+		}
+		add("inv-body-signed-shorter"+sfx, 2, func(o *c18CsOp) {
+			o.needBody()
+			o.fr = fr
+			o.extra["sb"] = c18Hex(o.body[:len(o.body)-1])
+		})
+		add("inv-body-signed-longer"+sfx, 2, func(o *c18CsOp) {
+			o.needBody()
+			o.fr = fr
+			o.extra["sb"] = c18Hex(append(append([]byte{}, o.body...), byte(o.r.Intn(256))))
+		})
+		add("inv-body-signed-one-bit-off"+sfx, 2, func(o *c18CsOp) {
+			o.needBody()
+			o.fr = fr
+			b := append([]byte{}, o.body...)
+			b[o.r.Intn(len(b))] ^= byte(1 << o.r.Intn(8))
+			o.extra["sb"] = c18Hex(b)
+		})
+		add("inv-body-signed-empty-sent-nonempty"+sfx, 3, func(o *c18CsOp) {
+			o.needBody()
+			o.fr = fr
+			o.extra["sb"] = "-"
+		})
+		add("inv-body-signed-nonempty-sent-empty"+sfx, 2, func(o *c18CsOp) {
+			o.noBody()
+			o.fr = fr
+			o.extra["sb"] = c18Hex(c18RandBytes(o.r, o.r.Range(1, 20)))
+		})
+	}
+	add("inv-body-signed-nonempty-sent-none", 1, func(o *c18CsOp) {
+		o.noBody()
+		o.fr = o.r.PickS("nobody", "nobody-unknown")
+		o.extra["sb"] = c18Hex(c18RandBytes(o.r, o.r.Range(1, 20)))
+	})
+	add("inv-body-signed-plaintext-sent-ciphertext", 1, func(o *c18CsOp) {
+		o.needBody()
+		if len(o.payload) == 0 {
+			o.payload = []byte("x")
+		}
+		o.setPayload(o.payload, true)
+		o.extra["sb"] = c18Hex(o.payload)
+	})
+	// ---- key fingerprint and secret
+	add("inv-fingerprint-of-other-configured-key", 2, func(o *c18CsOp) {
+		o.f["fp"] = c18H("other") // when "other" is not configured this is an unknown fingerprint
+		if !o.twoKeys {
+			o.label = "inv-fingerprint-not-configured"
+		}
+	})
+	add("inv-fingerprint-not-configured", 2, func(o *c18CsOp) { o.f["fp"] = c18H(o.r.PickS("nobody", "goo", "goodx", "bogus")) })
+	add("inv-fingerprint-not-configured-with-its-key", 2, func(o *c18CsOp) { // a key pair the server does not hold
+		o.f["fp"], o.f["sec"] = c18H("third"), "k2"
+	})
+	add("inv-fingerprint-other-case", 1, func(o *c18CsOp) { o.f["fp"] = c18H(o.r.PickS("Good", "GOOD")) })
+	add("inv-fingerprint-empty", 1, func(o *c18CsOp) { o.f["fp"] = "-" })
+	add("fingerprint-other-key-consistent", 2, func(o *c18CsOp) { // valid when "other" is configured
+		o.f["fp"], o.f["sec"] = c18H("other"), "k2"
+		if o.twoKeys {
+			o.label = "valid-second-configured-key"
+		} else {
+			o.label = "inv-fingerprint-not-configured-with-its-key"
+		}
+	})
+	add("inv-secret-encrypted-to-other-key", 2, func(o *c18CsOp) { o.f["sec"] = "k2" })
+	add("inv-secret-garbage", 1, func(o *c18CsOp) { o.f["sec"] = "garbage" })
+	add("inv-secret-not-base64", 1, func(o *c18CsOp) { o.f["sec"] = "badb64" })
+	add("inv-secret-empty", 1, func(o *c18CsOp) { o.f["sec"] = "empty" })
+	add("empty-hmac-key", 1, func(o *c18CsOp) { // no key field: the HMAC key is empty, and so is the client's
+		o.typ = "0"
+		o.body = o.payload
+		o.plain = "version=v1; type=0; time=@TS@"
+		o.sk, o.skSet = nil, true
+	})
+	add("inv-key-field-missing-signed-with-key", 1, func(o *c18CsOp) {
+		o.typ = "0"
+		o.body = o.payload
+		o.plain = "version=v1; type=0; time=@TS@"
+	})
+	add("inv-key-not-base64", 1, func(o *c18CsOp) {
+		kb := o.keyB64()
+		o.plain = "version=v1; type=" + o.typ + "; key=" + o.r.PickS("!!!", kb[:len(kb)-1], kb+"=") + "; time=@TS@"
+	})
+	add("inv-type-missing", 1, func(o *c18CsOp) { o.plain = "version=v1; key=" + o.keyB64() + "; time=@TS@" })
+	add("inv-type-malformed", 1, func(o *c18CsOp) {
+		o.plain = "version=v1; type=" + o.r.PickS("abc", "", "1x", " 1", "1.0") + "; key=" + o.keyB64() + "; time=@TS@"
+	})
+	add("type-other-number", 1, func(o *c18CsOp) {
+		o.plain = "version=v1; type=" + o.r.PickS("2", "-1", "+1", "01", "+0") + "; key=" + o.keyB64() + "; time=@TS@"
+	})
+	add("aes-unusable-key", 1, func(o *c18CsOp) { // a key AES does not accept (HMAC does)
+		o.key = c18RandBytes(o.r, o.r.Pick(5, 15, 17, 33))
+		o.body = o.payload
+		if o.typ == "1" && len(o.payload) > 0 {
+			o.body = []byte(base64.StdEncoding.EncodeToString(c18RandBytes(o.r, 16)))
+		}
+	})
+	// ---- signature
+	add("inv-signature-under-other-key", 2, func(o *c18CsOp) { o.sk, o.skSet = c18AesKey(o.r), true })
+	add("inv-signature-empty", 1, func(o *c18CsOp) { o.f["sig"] = "raw:-" })
+	add("inv-signature-garbage", 1, func(o *c18CsOp) { o.f["sig"] = "raw:" + c18H(o.r.PickS("badone", "AAAA", "=")) })
+	add("inv-signature-random-mac", 1, func(o *c18CsOp) {
+		o.f["sig"] = "raw:" + c18H(base64.StdEncoding.EncodeToString(c18RandBytes(o.r, 32)))
+	})
+	add("inv-signature-one-character-off", 2, func(o *c18CsOp) { o.extra["sigmut"] = "flip" + strconv.Itoa(o.r.Intn(44)) })
+	add("inv-signature-last-character-off", 1, func(o *c18CsOp) { o.extra["sigmut"] = "flip42" })
+	add("inv-signature-truncated", 1, func(o *c18CsOp) { o.extra["sigmut"] = "trunc" })
+	add("inv-signature-without-padding", 1, func(o *c18CsOp) { o.extra["sigmut"] = "nopad" })
+	add("inv-signature-extended", 1, func(o *c18CsOp) { o.extra["sigmut"] = "append" })
+	// ---- the X-Content-Security header itself
+	add("inv-header-absent", 2, func(o *c18CsOp) { o.f["hdr"] = "0" })
+	add("inv-header-empty", 1, func(o *c18CsOp) { o.extra["hv"] = "empty-value" })
+	add("eq-header-fields-reordered", 1, func(o *c18CsOp) { o.extra["hv"] = "reorder" })
+	add("eq-header-no-spaces", 1, func(o *c18CsOp) { o.extra["hv"] = "nospace" })
+	add("eq-header-extra-spaces", 1, func(o *c18CsOp) { o.extra["hv"] = "spaces" })
+	add("eq-header-junk-fields", 1, func(o *c18CsOp) { o.extra["hv"] = "junk-fields" })
+	add("eq-header-duplicate-fields-last-valid", 2, func(o *c18CsOp) { o.extra["hv"] = "dupfield-last-good" })
+	add("inv-header-duplicate-key-last-bogus", 2, func(o *c18CsOp) { o.extra["hv"] = "dupfield-last-bad-key" })
+	add("inv-header-duplicate-signature-last-bogus", 2, func(o *c18CsOp) { o.extra["hv"] = "dupfield-last-bad-sig" })
+	add("inv-header-duplicate-secret-last-bogus", 1, func(o *c18CsOp) { o.extra["hv"] = "dupfield-last-bad-secret" })
+	add("inv-header-field-names-capitalised", 1, func(o *c18CsOp) { o.extra["hv"] = "field-name-case" })
+	add("eq-header-sent-twice-first-valid", 2, func(o *c18CsOp) { o.extra["hv"] = "dup-header-first-good" })
+	add("inv-header-sent-twice-first-bogus", 2, func(o *c18CsOp) { o.extra["hv"] = "dup-header-first-bad" })
+	add("eq-header-sent-twice-first-valid-wire", 1, func(o *c18CsOp) { o.extra["hv"], o.via = "dup-header-first-good", "wire" })
+	add("inv-header-sent-twice-first-bogus-wire", 1, func(o *c18CsOp) { o.extra["hv"], o.via = "dup-header-first-bad", "wire" })
+	add("eq-header-name-lowercase", 1, func(o *c18CsOp) { o.extra["hv"] = "lower-name" })
+	add("eq-header-name-lowercase-wire", 2, func(o *c18CsOp) { o.extra["hv"], o.via = "lower-name", "wire" })
+	// ---- methods the handler does not look at (recorded finding cs-method-gate)
+	for _, v := range []string{"no-header", "forged-signature", "other-body", "valid"} {
+		v := v
+		add("kf-ungated-method-"+v, 2, func(o *c18CsOp) {
+			o.method = o.r.PickS("PATCH", "HEAD", "OPTIONS", "TRACE", "PATCH")
+			o.via = ""
+			switch v {
+			case "no-header":
+				o.f["hdr"] = "0"
+			case "forged-signature":
+				o.f["sig"] = "raw:" + c18H("forged")
+			case "other-body":
+				o.extra["sb"] = c18H("other body")
+			}
+		})
+	}
+	// ---- X-Request-Uri (recorded finding cs-request-uri-override)
+	add("uri-names-the-request", 1, func(o *c18CsOp) {
+		o.path = o.r.PickS("/a/b", "/x", "/")
+		o.uri = "http://localhost" + o.path
+		if o.query != "" {
+			o.uri += "?" + o.query
+		}
+	})
+	add("kf-uri-names-other-signed-for-uri", 3, func(o *c18CsOp) {
+		up, uq := c18Paths[o.r.Intn(6)]+"/other", o.r.PickS("", "z=9")
+		o.uri = o.r.PickS("", "http://remotehost", "https://h:8443") + up
+		if uq != "" {
+			o.uri += "?" + uq
+		}
+		o.extra["sp"], o.extra["sq"] = c18H(up), c18H(uq)
+	})
+	add("inv-uri-names-other-signed-for-request", 1, func(o *c18CsOp) { o.uri = "/somewhere/else?z=9" })
+	add("eq-uri-unparsable", 1, func(o *c18CsOp) { o.uri = o.r.PickS("http://[::1", "%zz", "http://a b/") })
+	// ---- broken ciphertext bodies (signed as sent)
+	for k := 0; k < 6; k++ {
+		k := k
+		add("ciphertext-broken-"+[]string{"newline-only", "bad-character", "partial-block", "line-break-inside", "padding-block-only", "other-key"}[k], 1, func(o *c18CsOp) {
+			o.needBody()
+			o.typ = "1"
+			good := c18ClientEncrypt(o.key, c18RandBytes(o.r, o.r.Range(1, 40)))
+			switch k {
+			case 0:
+				o.body = []byte("\n")
+			case 1:
+				o.body = append([]byte{}, good...)
+				o.body[o.r.Intn(len(o.body))] = '!'
+			case 2:
+				raw, _ := base64.StdEncoding.DecodeString(string(good))
+				o.body = []byte(base64.StdEncoding.EncodeToString(raw[:len(raw)-o.r.Range(1, 15)]))
+			case 3:
+				o.body = append(append(append([]byte{}, good[:4]...), '\r', '\n'), good[4:]...)
+			case 4:
+				o.body = c18ClientEncrypt(o.key, nil) // one block of padding only
+			case 5:
+				o.body = c18ClientEncrypt(c18AesKey(o.r), c18RandBytes(o.r, o.r.Range(1, 40))) // encrypted under another key
+			}
+			o.fr = o.r.PickS("len", "len", "chunked")
+		})
+	}
+	add("content-length-disagrees-with-body", 2, func(o *c18CsOp) {
+		o.needBody()
+		o.fr, o.via = "len", ""
+		o.extra["cl"] = strconv.Itoa(o.r.Pick(0, len(o.body)-1, len(o.body)+3))
+	})
+	return m
+}
+
+func c18GenCs(r *verifh.Rng, plan *c18Plan, muts []c18CsMut, weights []int) verifh.Section {
+	strict := 1
+	if r.Chance(1, 6) {
+		strict = 0
+	}
+	tol := r.Pick(5, 60, 3600)
+	limit := r.Pick(1<<20, 1<<20, 1<<20, 64)
+	fps := c18H("good") + ":k1"
+	twoKeys := r.Bool()
+	if twoKeys {
+		fps += "," + c18H("other") + ":k2"
+	}
+	cfg := fmt.Sprintf("kind=cs strict=%d tol=%d limit=%d fps=%s", strict, tol, limit, fps)
+	var ops []string
+	nreq := r.Range(10, verifh.Scale(30, 45))
+	for i := 0; i < nreq; i++ {
+		o := &c18CsOp{r: r, tol: tol, twoKeys: twoKeys, extra: map[string]string{}}
+		o.method = r.PickS("GET", "POST", "POST", "PUT", "DELETE")
+		o.path = c18Paths[r.Intn(len(c18Paths))]
+		o.query = c18Queries[r.Intn(len(c18Queries))]
+		o.key = c18AesKey(r)
+		var payload []byte
+		if o.method != "GET" || r.Chance(1, 5) {
+			payload = c18RandBytes(r, r.Pick(0, 1, 5, 15, 16, 17, 31, 32, 33, r.Range(0, 80)))
+		}
+		o.setPayload(payload, r.Chance(2, 5) && (len(payload) > 0 || r.Chance(1, 4)))
+		o.reply = c18RandBytes(r, r.Pick(0, 1, 5, 15, 16, 17, 32, r.Range(0, 60)))
+		o.f = map[string]string{"hdr": "1", "fp": c18H("good"), "sec": "k1", "sig": "hmac", "dt": "0"}
+		// framing and transport of the valid request
+		switch {
+		case len(o.body) > 0:
+			o.fr = r.PickS("len", "len", "len", "chunked", "chunked")
+		default:
+			o.fr = r.PickS("len", "nobody", "chunked", "nobody-unknown")
+		}
+		if r.Chance(1, 8) {
+			o.via = "wire"
+		}
+		mi := plan.next(r, strict == 1, weights)
+		o.label = muts[mi].name
+		muts[mi].apply(o)
+		plain := o.plain
+		if plain == "" {
+			plain = "version=v1; type=" + o.typ + "; key=" + o.keyB64() + "; time=@TS@"
+		}
+		sk := o.key
+		if o.skSet {
+			sk = o.sk
+		}
+		if o.via == "wire" {
+			switch o.method {
+			case "GET", "POST", "PUT", "DELETE", "PATCH":
+			default:
+				o.via = ""
+			}
+			if _, ok := o.extra["cl"]; ok {
+				o.via = ""
+			}
+		}
+		op := fmt.Sprintf("req m=%s path=%s query=%s uri=%s hdr=%s fp=%s sec=%s plain=%s sig=%s dt=%s sk=%s ak=%s body=%s reply=%s fr=%s mut=%s",
+			o.method, c18H(o.path), c18H(o.query), c18H(o.uri), o.f["hdr"], o.f["fp"], o.f["sec"], c18H(plain), o.f["sig"], o.f["dt"],
+			c18Hex(sk), c18Hex(o.key), c18Hex(o.body), c18Hex(o.reply), o.fr, o.label)
+		if o.forceQ {
+			op += " fq=1"
+		}
+		if o.via != "" {
+			op += " via=" + o.via
+		}
+		var ks []string
+		for k := range o.extra {
+			ks = append(ks, k)
+		}
+		sort.Strings(ks)
+		for _, k := range ks {
+			op += " " + k + "=" + o.extra[k]
+		}
+		ops = append(ops, op)
+	}
+	return verifh.Section{Cfg: cfg, Ops: ops}
+}
+
+// ------------------------------------------------ cryption
+
+func c18GenCrypt(r *verifh.Rng, plan *c18Plan, combos [][2]int) verifh.Section {
 	key := c18AesKey(r)
 	if r.Chance(1, 8) {
 		key = c18RandBytes(r, r.Pick(0, 5, 15, 17, 33))
@@ -1111,18 +1845,27 @@ func c18GenCrypt(r *verifh.Rng) verifh.Section {
 	cfg := fmt.Sprintf("kind=crypt key=%s limit=%d", c18Hex(key), limit)
 	var ops []string
 	valid := len(key) == 16 || len(key) == 24 || len(key) == 32
+	frames := []string{"len", "chunked", "len-wire", "chunked-wire"}
 	nreq := r.Range(6, verifh.Scale(25, 40))
 	for i := 0; i < nreq; i++ {
-		payload := c18RandBytes(r, r.Pick(0, 1, 15, 16, 17, 31, 32, 33, 47, 48, r.Range(0, 80)))
+		plen := r.Pick(0, 1, 15, 16, 17, 31, 32, 33, 47, 48, r.Range(0, 80))
+		fr := r.PickS("len", "len", "len", "chunked", "chunked", "len-wire", "chunked-wire")
+		variant := r.Intn(20)
+		if valid && limit != 48 && len(plan.queue) > 0 {
+			// every payload length class under every framing, unmodified
+			c := combos[plan.next(r, true, nil)]
+			plen, fr, variant = c[0], frames[c[1]], 99
+		}
+		payload := c18RandBytes(r, plen)
 		var body []byte
-		if valid && len(payload) > 0 {
+		if valid {
 			body = c18ClientEncrypt(key, payload)
 		} else if len(payload) > 0 {
 			body = []byte(base64.StdEncoding.EncodeToString(payload))
 		}
 		reply := c18RandBytes(r, r.Pick(0, 1, 15, 16, 17, 32, r.Range(0, 80)))
 		extra := ""
-		switch r.Intn(16) {
+		switch variant {
 		case 0:
 			body = []byte(r.PickS("\n", "\r\n", "\n\n"))
 		case 1:
@@ -1130,7 +1873,7 @@ func c18GenCrypt(r *verifh.Rng) verifh.Section {
 				body[r.Intn(len(body))] = byte(r.PickS("!", " ", "-", "_", "=")[0])
 			}
 		case 2:
-			if valid && len(payload) > 0 {
+			if valid {
 				raw, _ := base64.StdEncoding.DecodeString(string(body))
 				body = []byte(base64.StdEncoding.EncodeToString(raw[:len(raw)-r.Range(1, 15)]))
 			}
@@ -1139,12 +1882,12 @@ func c18GenCrypt(r *verifh.Rng) verifh.Section {
 				body = append(append(append([]byte{}, body[:8]...), '\r', '\n'), body[8:]...)
 			}
 		case 4:
-			if valid {
-				body = c18ClientEncrypt(key, nil)
-			}
+			body = nil
+			fr = r.PickS("len", "nobody", "nobody-unknown", "chunked", "chunked-wire", "nobody-wire")
 		case 5:
 			if len(body) > 0 {
 				extra = " cl=" + strconv.Itoa(r.Pick(-1, 0, len(body)-1, len(body)-4, len(body)+3))
+				fr = "len"
 			}
 		case 6:
 			body = c18ClientEncrypt(c18RandBytes(r, 16), payload)
@@ -1160,8 +1903,25 @@ func c18GenCrypt(r *verifh.Rng) verifh.Section {
 				}
 				body = []byte(base64.StdEncoding.EncodeToString(ct))
 			}
+		case 8:
+			// a body exactly at / one byte over the limit, for both framings
+			if limit > 0 && limit < 1000 && valid {
+				n := int(limit) / 4 * 3
+				body = []byte(base64.StdEncoding.EncodeToString(c18RandBytes(r, n)))
+				if r.Bool() {
+					body = append(body, '\n')
+				}
+			}
 		}
-		ops = append(ops, fmt.Sprintf("req body=%s reply=%s%s", c18Hex(body), c18Hex(reply), extra))
+		op := fmt.Sprintf("req body=%s reply=%s", c18Hex(body), c18Hex(reply))
+		if strings.HasSuffix(fr, "-wire") {
+			fr = strings.TrimSuffix(fr, "-wire")
+			if extra == "" {
+				op += " via=wire"
+			}
+		}
+		op += " fr=" + fr + extra
+		ops = append(ops, op)
 	}
 	return verifh.Section{Cfg: cfg, Ops: ops}
 }
@@ -1215,14 +1975,33 @@ func c18GenText(r *verifh.Rng) verifh.Section {
 
 func c18Gen(r *verifh.Rng) []verifh.Section {
 	var secs []verifh.Section
-	for i := verifh.Scale(30, 300); i > 0; i-- {
-		secs = append(secs, c18GenJwt(r.Fork()))
+	jm := c18JwtMuts()
+	jw := make([]int, len(jm))
+	for i, m := range jm {
+		jw[i] = m.w
 	}
+	jplan := c18NewPlan(r.Fork(), len(jm))
 	for i := verifh.Scale(30, 300); i > 0; i-- {
-		secs = append(secs, c18GenCs(r.Fork()))
+		secs = append(secs, c18GenJwt(r.Fork(), jplan, jm, jw))
 	}
+	cm := c18CsMuts()
+	cw := make([]int, len(cm))
+	for i, m := range cm {
+		cw[i] = m.w
+	}
+	cplan := c18NewPlan(r.Fork(), len(cm))
+	for i := verifh.Scale(40, 300); i > 0; i-- {
+		secs = append(secs, c18GenCs(r.Fork(), cplan, cm, cw))
+	}
+	var combos [][2]int
+	for _, n := range []int{0, 1, 15, 16, 17, 32, 33} {
+		for f := 0; f < 4; f++ {
+			combos = append(combos, [2]int{n, f})
+		}
+	}
+	kplan := c18NewPlan(r.Fork(), len(combos))
 	for i := verifh.Scale(20, 200); i > 0; i-- {
-		secs = append(secs, c18GenCrypt(r.Fork()))
+		secs = append(secs, c18GenCrypt(r.Fork(), kplan, combos))
 	}
 	secs = append(secs, c18GenText(r.Fork()))
 	return secs
